@@ -185,12 +185,30 @@ func c18Terminates(c *Ctx, gens []*ssa.Function) {
 			c.R.Hold("R-terminates", "guarded recursion "+fname(e.from)+" -> "+fname(e.to), c.Pos(e.site.Pos()), e.why+" guard")
 		}
 	}
-	for _, cy := range cycles {
-		c.R.Violate("R-terminates", "unguarded cycle "+cy, "", sprintf("recursion cycle over reflect.Type without any seen-table or depth guard: %s -> (back): a self-referential slice/map/pointer type never terminates", cy))
+	// findings are reported per reference style (one per root cause and style), listing the cycles found
+	roots, styleLabel := c18Styles(c, gens)
+	for _, r := range roots {
+		reach := c.ReachSync(r)
+		var mine []string
+		for _, cy := range cycles {
+			for f := range reach {
+				if strings.Contains(cy, fname(f)) {
+					mine = append(mine, cy)
+					break
+				}
+			}
+		}
+		construct := "generator of reference style " + styleLabel[r] + ": type recursion is guarded"
+		if len(mine) == 0 {
+			c.R.Hold("R-terminates", construct, c.Pos(r.Pos()), "every recursive call is behind a seen-table or depth guard")
+			continue
+		}
+		c.R.Violate("R-terminates", construct, c.Pos(r.Pos()), sprintf("recursion over reflect.Type without any seen-table or depth guard in the generator of reference style %s (rooted at %s): %s — a self-referential slice/map/pointer type never terminates", styleLabel[r], fname(r), strings.Join(mine, "; ")))
 	}
 	c.R.Extra["recursive_edges"] = len(edges)
 	c.R.Extra["guarded_edges"] = nGuarded
 	// pointer-unwrapping loops: phi over reflect.Type updated by .Elem() whose only exit tests Kind() != Ptr
+	unbounded := map[*ssa.Function]bool{}
 	for _, g := range gens {
 		ir.EachInstr(g, func(_ *ssa.BasicBlock, _ int, in ssa.Instruction) {
 			phi, ok := in.(*ssa.Phi)
@@ -215,11 +233,24 @@ func c18Terminates(c *Ctx, gens []*ssa.Function) {
 					}
 				}
 			}
-			c.R.Check(bounded, "R-terminates", "pointer unwrap loop in "+fname(g), c.Pos(phi.Pos()), "bounded",
-				sprintf("%s unwraps pointers with `for t.Kind() == reflect.Ptr { t = t.Elem() }` without a bound: a self-referential pointer type (type P *P) never terminates", fname(g)))
+			if !bounded {
+				unbounded[g] = true
+			}
 		})
 	}
-	c.R.Min("R-terminates", 8)
+	for _, r := range roots {
+		var fns []string
+		for f := range c.ReachSync(r) {
+			if unbounded[f] {
+				fns = append(fns, fname(f))
+			}
+		}
+		sort.Strings(fns)
+		construct := "generator of reference style " + styleLabel[r] + ": pointer unwrapping is bounded"
+		c.R.Check(len(fns) == 0, "R-terminates", construct, c.Pos(r.Pos()), "no unbounded `for t.Kind() == reflect.Ptr` loop",
+			sprintf("the generator of reference style %s unwraps pointers with `for t.Kind() == reflect.Ptr { t = t.Elem() }` without a bound (in %s): a self-referential pointer type (type P *P) never terminates", styleLabel[r], strings.Join(fns, ", ")))
+	}
+	c.R.Min("R-terminates", 6)
 }
 
 // depthExitParam returns the index of an int parameter p for which fn has an early exit on p <= 0, or -1.
@@ -275,23 +306,9 @@ func c18KindCases(c *Ctx, gens []*ssa.Function) {
 		}
 	}
 	_ = dispatchers
-	// one generator per style: the generator functions the exported (non-reflect) front-end of the package calls
-	inGen := map[*ssa.Function]bool{}
-	for _, g := range gens {
-		inGen[g] = true
-	}
-	rootSet := map[*ssa.Function]bool{}
-	for _, fn := range c.P.LibFns {
-		if fn.Pkg == nil || fn.Pkg.Pkg.Path() != schemaPkg || takesReflectType(fn) || fn.Object() == nil || !fn.Object().Exported() {
-			continue
-		}
-		ir.EachCall(fn, func(call ssa.CallInstruction) {
-			if sc := ir.StaticCallee(call); sc != nil && inGen[sc] {
-				rootSet[sc] = true
-			}
-		})
-	}
-	dispatchers = sortedFuncs(rootSet)
+	// one generator per style
+	var styleLabel map[*ssa.Function]string
+	dispatchers, styleLabel = c18Styles(c, gens)
 	if len(dispatchers) != 3 {
 		c.R.Break("found %d generation-style entry points behind the exported front-end, expected 3", len(dispatchers))
 	}
@@ -386,8 +403,8 @@ func c18KindCases(c *Ctx, gens []*ssa.Function) {
 			{"interface", "interface-typed fields (any JSON value)"},
 			{"string-option", "the \",string\" tag option (numbers/bools encoded as strings)"},
 		} {
-			c.R.Check(feat[ft.key], "R-kind-cases", fname(d)+": "+ft.key, c.Pos(d.Pos()), "case present",
-				sprintf("the generator rooted at %s never considers %s: the schema does not describe what encoding/json produces for such fields", fname(d), ft.what))
+			c.R.Check(feat[ft.key], "R-kind-cases", "generator of reference style "+styleLabel[d]+": "+ft.key, c.Pos(d.Pos()), "case present",
+				sprintf("the generator of reference style %s (rooted at %s) never considers %s: the schema does not describe what encoding/json produces for such fields", styleLabel[d], fname(d), ft.what))
 		}
 	}
 	c.R.Min("R-kind-cases", 15)
@@ -586,6 +603,26 @@ func c18PathMirror(c *Ctx) {
 			}
 		}
 	})
+	if wrapBlock == nil {
+		// the wrapping may be done by a helper: the call of a library function that fills an AnyOf member
+		ir.EachInstr(walker, func(b *ssa.BasicBlock, _ int, in ssa.Instruction) {
+			call, ok := in.(*ssa.Call)
+			if !ok {
+				return
+			}
+			sc := ir.StaticCallee(call)
+			if sc == nil || !c.P.IsLib(sc) {
+				return
+			}
+			ir.EachInstr(sc, func(_ *ssa.BasicBlock, _ int, in2 ssa.Instruction) {
+				if st, ok := in2.(*ssa.Store); ok {
+					if f, _, ok := ir.FieldOf(st.Addr); ok && f.Name == "AnyOf" {
+						wrapBlock = b
+					}
+				}
+			})
+		})
+	}
 	if pushBlock == nil || wrapBlock == nil {
 		c.R.Break("anyOf push/wrap sites not found in %s", fname(walker))
 		return
@@ -823,4 +860,72 @@ func c18FreshSchema(c *Ctx) {
 			sprintf("%s can return a schema taken from %s: every caller receives the same *Schema, so the per-tool changes the builder options apply to it (extra properties, required members) leak into every other tool generated from that type", fname(fn), shared))
 	}
 	c.R.Min("R-fresh-schema", 6)
+}
+
+// c18Styles: one generator per reference style. The roots are the generator functions the exported (non-reflect)
+// front-end calls; each is labelled by the ReferenceStyle constant whose case reaches the call ("default" for the
+// fall-through), so that findings are keyed by the style a user selects, not by the names of internal functions.
+func c18Styles(c *Ctx, gens []*ssa.Function) (roots []*ssa.Function, label map[*ssa.Function]string) {
+	inGen := map[*ssa.Function]bool{}
+	for _, g := range gens {
+		inGen[g] = true
+	}
+	label = map[*ssa.Function]string{}
+	rootSet := map[*ssa.Function]bool{}
+	for _, fn := range c.P.LibFns {
+		if fn.Pkg == nil && fn.Origin() != nil {
+			// instantiation of a generic front-end: fn.Pkg is nil, use the origin's package
+		}
+		pkg := fn.Pkg
+		if pkg == nil && fn.Origin() != nil {
+			pkg = fn.Origin().Pkg
+		}
+		obj := fn.Object()
+		if obj == nil && fn.Origin() != nil {
+			obj = fn.Origin().Object()
+		}
+		if pkg == nil || pkg.Pkg.Path() != schemaPkg || takesReflectType(fn) || obj == nil || !obj.Exported() {
+			continue
+		}
+		ir.EachInstr(fn, func(_ *ssa.BasicBlock, _ int, in ssa.Instruction) {
+			call, ok := in.(*ssa.Call)
+			if !ok {
+				return
+			}
+			sc := ir.StaticCallee(call)
+			if sc == nil || !inGen[sc] {
+				return
+			}
+			rootSet[sc] = true
+			lab := ""
+			allFalse := true
+			for _, g := range flow.Guards(fn, call.Block()) {
+				bin, ok := g.If.Cond.(*ssa.BinOp)
+				if !ok || bin.Op != token.EQL {
+					continue
+				}
+				k, isK := ir.ConstInt(bin.Y)
+				if !isK {
+					continue
+				}
+				if g.Branch {
+					lab = sprintf("%d", k)
+					allFalse = false
+				}
+			}
+			if lab == "" && allFalse {
+				lab = "default"
+			}
+			if lab != "" {
+				label[sc] = lab
+			}
+		})
+	}
+	roots = sortedFuncs(rootSet)
+	for _, r := range roots {
+		if label[r] == "" {
+			label[r] = fname(r)
+		}
+	}
+	return roots, label
 }
